@@ -709,7 +709,7 @@ def rule_r13(prog, res):
                             'looked at whether the value is None: the null '
                             'the writer emits for a None member of a nullable '
                             'type is refused under soft validation' % c.name)
-    res.floor('R13', 'rejections in dict-document kind checks', n, 3)
+    res.floor('R13', 'rejections in dict-document kind checks', n, 2)
     f = h.methods['_from_dict_value']
     k = 0
     for call in calls_in(f.node):
